@@ -123,6 +123,20 @@ func doEnc12(args []vlib.Sx) (res result, err error) {
 			break
 		}
 	}
+	// a third-party reader (golang.org/x/image) on a font carrying the table
+	if len(groups) <= 20000 {
+		if look, err := xLookup(cmap.Key{PlatformID: 3, EncodingID: 10}, b); err != nil {
+			fail("x/image rejects a font carrying the subtable: %v", err)
+		} else {
+			for _, c := range probes(m, 0xFFFFFFFF) {
+				if g, err := look(c); err != nil || g != m[c] {
+					fail("x/image GlyphIndex(%d) = %d (err=%v), map has %d", c, g, err, m[c])
+					break
+				}
+			}
+			res.labels = append(res.labels, "x/image-reader")
+		}
+	}
 	// the library's own decoder returns the map
 	_, hasMax := m[0xFFFFFFFF]
 	var sub cmap.Subtable
